@@ -547,7 +547,8 @@ class C11(PropBase):
                 "the Symbolizer level is composed with C12's cache model for the sequential client of a case: in every finishing schedule one result per lookup in order, each the supplier's single answer for that module, requested = processed = distinct modules, "
                 "each module fetched once (c11_symbolizer_session), and in every schedule the frame filled from the cached answer is frame_of (c11_symbolizer_cached_frame); modules may be unknown to the supplier or have a corrupt file, and pending_stats / stats are compared after every case. Model and real code (parser + fill_symbol + walk_stack over a module list + Symbolizer::get_symbol_at_address) are run on the same generated files in "
                 "debug and release; an independent Python linear-scan oracle judges the real output.",
-        "note": "Trusted: Coq kernel; hand-written model (correspondence-checked, parser table construction included); ExtrOcamlBasic extraction + OCaml/Rust glue; "
+        "note": "Trusted: Coq kernel; hand-written model (correspondence-checked, parser table construction included) and, for the eleven functions compiled from the Rust source, "
+                "the compiler translate/c11_compile.py with its vocabulary C11/Prims.v instead; ExtrOcamlBasic extraction + OCaml/Rust glue; "
                 "std binary search and sort modelled from their documented algorithms. No axioms.",
     }
 
